@@ -418,4 +418,166 @@ theorem okEntries_sound {tr : List (Ev κ)} {o : OState κ} (hH : Hist tr o) (b 
       simp at he hid
       exact hrec j e id he hid
 
+/-! ### facts about the bookkeeping `scan` -/
+
+theorem scan_append (tr evs : List (Ev κ)) : scan (tr ++ evs) = evs.foldl scanStep (scan tr) := by
+  unfold scan; rw [List.foldl_append]
+
+theorem scanStep_keeps (sc : Scan) (e : Ev κ) (c f : Nat) (h1 : sc.rem f = true) (h2 : sc.ban c f = true) :
+    (scanStep sc e).rem f = true ∧ (scanStep sc e).ban c f = true := by
+  cases e with
+  | rm k g =>
+    simp only [scanStep]
+    refine ⟨?_, h2⟩
+    by_cases hg : f = g <;> simp [hg, h1]
+  | start c' b es =>
+    simp only [scanStep]
+    refine ⟨h1, ?_⟩
+    by_cases hc : c = c' <;> simp [hc, h1, h2]
+  | exec c' ids a =>
+    simp only [scanStep]
+    refine ⟨h1, ?_⟩
+    by_cases hc : c = c' <;> simp [hc, h1, h2]
+  | prep _ _ _ => exact ⟨h1, h2⟩
+  | ret _ _ => exact ⟨h1, h2⟩
+  | crash => exact ⟨h1, h2⟩
+  | hang _ => exact ⟨h1, h2⟩
+
+theorem foldl_keeps (c f : Nat) : ∀ (evs : List (Ev κ)) (sc : Scan), sc.rem f = true → sc.ban c f = true →
+    (evs.foldl scanStep sc).ban c f = true
+  | [], _, _, h2 => h2
+  | e :: evs, sc, h1, h2 => by
+    obtain ⟨g1, g2⟩ := scanStep_keeps sc e c f h1 h2
+    exact foldl_keeps c f evs (scanStep sc e) g1 g2
+
+theorem scanStep_rem (sc : Scan) (e : Ev κ) (f : Nat) (h1 : sc.rem f = true) : (scanStep sc e).rem f = true := by
+  cases e with
+  | rm k g =>
+    simp only [scanStep]
+    by_cases hg : f = g <;> simp [hg, h1]
+  | start _ _ _ => exact h1
+  | exec _ _ _ => exact h1
+  | prep _ _ _ => exact h1
+  | ret _ _ => exact h1
+  | crash => exact h1
+  | hang _ => exact h1
+
+theorem foldl_rem_of_mem (f : Nat) (k : κ) : ∀ (evs : List (Ev κ)) (sc : Scan), (sc.rem f = true ∨ Ev.rm k f ∈ evs) →
+    (evs.foldl scanStep sc).rem f = true
+  | [], sc, h => by
+    rcases h with h | h
+    · exact h
+    · simp at h
+  | e :: evs, sc, h => by
+    refine foldl_rem_of_mem f k evs (scanStep sc e) ?_
+    rcases h with h | h
+    · exact Or.inl (scanStep_rem sc e f h)
+    · rcases List.mem_cons.1 h with h | h
+      · subst h; left; simp [scanStep]
+      · exact Or.inr h
+
+theorem scan_rem_of_mem (f : Nat) (k : κ) (tr : List (Ev κ)) (h : Ev.rm k f ∈ tr) : (scan tr).rem f = true := by
+  unfold scan
+  exact foldl_rem_of_mem f k tr _ (Or.inr h)
+
+/-- a flight that left the cache before call c started stays "removed before" for c, whatever follows -/
+theorem removedBefore_of_rm_before_start (p1 p2 : List (Ev κ)) (c f : Nat) (k : κ) (b : Bool) (es : List (κ × Nat))
+    (h : Ev.rm k f ∈ p1) : removedBefore (p1 ++ Ev.start c b es :: p2) c f = true := by
+  unfold removedBefore
+  have h1 := scan_rem_of_mem f k p1 h
+  have : p1 ++ Ev.start c b es :: p2 = (p1 ++ [Ev.start c b es]) ++ p2 := by simp
+  rw [this, scan_append]
+  refine foldl_keeps c f p2 _ ?_ ?_
+  · rw [scan_snoc]; exact scanStep_rem _ _ _ h1
+  · rw [scan_snoc]; simp [scanStep, h1]
+
+/-! ### a call that returned is finished -/
+
+theorem returned_stays (c : Nat) : ∀ (evs : List (Ev κ)) (o o' : OState κ) (cl : OCaller κ),
+    Obs.run o evs = some o' → o.callers[c]? = some cl → cl.pc = .returned →
+    ∀ e ∈ evs, (∀ ids a, e ≠ Ev.exec c ids a) ∧ (∀ out, e ≠ Ev.ret c out)
+  | [], _, _, _, _, _, _ => by intro e he; simp at he
+  | x :: evs, o, o', cl, h, hc, hp => by
+    simp only [Obs.run] at h
+    cases hs : Obs.step o x with
+    | none => simp [hs] at h
+    | some o1 =>
+      simp only [hs] at h
+      have hx : (∀ ids a, x ≠ Ev.exec c ids a) ∧ (∀ out, x ≠ Ev.ret c out) := by
+        constructor
+        · intro ids a hx; subst hx
+          simp only [Obs.step, hc] at hs
+          have : ¬ (cl.pc.live = true ∧ okEntries o cl.banned cl.entries ids = true) := by
+            intro hh; rw [hp] at hh; simp [OPC.live] at hh
+          rw [if_neg this] at hs; cases hs
+        · intro out hx; subst hx
+          simp only [Obs.step, hc] at hs
+          cases out <;> simp [hp, OPC.live] at hs
+      -- the record of c is still there, still returned
+      have hkeep : ∃ cl1, o1.callers[c]? = some cl1 ∧ cl1.pc = .returned := by
+        have hlt : c < o.callers.length := (List.getElem?_eq_some_iff.1 hc).1
+        cases x with
+        | start c' b es =>
+          simp only [Obs.step] at hs
+          by_cases hh : c' = o.callers.length ∧ es ≠ []
+          · rw [if_pos hh] at hs; injection hs with hs; subst hs
+            exact ⟨cl, by simp only []; rw [List.getElem?_append_left hlt]; exact hc, hp⟩
+          · rw [if_neg hh] at hs; cases hs
+        | prep f k r =>
+          simp only [Obs.step] at hs
+          split at hs
+          · split at hs
+            · injection hs with hs; subst hs; exact ⟨cl, hc, hp⟩
+            · split at hs
+              · injection hs with hs; subst hs; exact ⟨cl, hc, hp⟩
+              · cases hs
+          · cases hs
+        | rm k f =>
+          simp only [Obs.step] at hs
+          split at hs
+          · injection hs with hs; subst hs; exact ⟨cl, hc, hp⟩
+          · split at hs
+            · injection hs with hs; subst hs; exact ⟨cl, hc, hp⟩
+            · cases hs
+        | exec c' ids a =>
+          have hne : c' ≠ c := by intro e; subst e; exact hx.1 ids a rfl
+          simp only [Obs.step] at hs
+          split at hs
+          · cases hs
+          · split at hs
+            · injection hs with hs; subst hs
+              exact ⟨cl, by simp only []; rw [List.getElem?_set_ne hne]; exact hc, hp⟩
+            · cases hs
+        | ret c' out =>
+          have hne : c' ≠ c := by intro e; subst e; exact hx.2 out rfl
+          have hset : ∀ (cl' : OCaller κ) (pc : OPC), (setPc o c' cl' pc).callers[c]? = some cl := by
+            intro cl' pc; unfold setPc; simp only []; rw [List.getElem?_set_ne hne]; exact hc
+          simp only [Obs.step] at hs
+          split at hs
+          · cases hs
+          · split at hs
+            · split at hs
+              · injection hs with hs; subst hs; exact ⟨cl, hset _ _, hp⟩
+              · cases hs
+            · split at hs
+              · injection hs with hs; subst hs; exact ⟨cl, hset _ _, hp⟩
+              · cases hs
+            · split at hs
+              · split at hs
+                · split at hs
+                  · injection hs with hs; subst hs; exact ⟨cl, hset _ _, hp⟩
+                  · cases hs
+                · cases hs
+              · cases hs
+            · split at hs
+              · injection hs with hs; subst hs; exact ⟨cl, hset _ _, hp⟩
+              · cases hs
+        | crash => simp [Obs.step] at hs
+        | hang _ => simp [Obs.step] at hs
+      obtain ⟨cl1, g1, g2⟩ := hkeep
+      intro e he
+      rcases List.mem_cons.1 he with he | he
+      · subst he; exact hx
+      · exact returned_stays c evs o1 o' cl1 h g1 g2 e he
+
 end C14Obs
